@@ -65,6 +65,16 @@ type Sess struct {
 	HoldSpace  bool       `json:"hold_space"`
 	Seg        devsim.Seg `json:"seg"`
 	Rejected   int        `json:"rejected"` // candidates the generator threw away (preconditions)
+	Fail       *FailSpec  `json:"fail,omitempty"`
+}
+
+// FailSpec (failed-hop family): during operation At the device executes hop Hop of the call's path
+// (its mode changes) but holds its reaction back until the call has returned; the call runs with an
+// operation timeout of TimeoutMs.
+type FailSpec struct {
+	At        int `json:"at"`
+	Hop       int `json:"hop"`
+	TimeoutMs int `json:"timeout_ms"`
 }
 
 const termChars = "!%^&*+=~?|" // a command's last byte comes from here and occurs nowhere else
@@ -728,6 +738,86 @@ func genSeqCase(r *rand.Rand) Sess {
 	return s
 }
 
+// targetOf: the level an operation goes to (-1: unknown target, the device does not move).
+func (s *Sess) targetOf(op Op) int {
+	if op.Unknown != "" {
+		return -1
+	}
+	switch op.Kind {
+	case "acquire":
+		return op.Level
+	case "command", "commands":
+		return s.Default
+	case "config", "configs":
+		if op.Level >= 0 {
+			return op.Level
+		}
+		for i, l := range s.Levels {
+			if l.Name == "configuration" {
+				return i
+			}
+		}
+		return -1
+	}
+	if op.Level >= 0 {
+		return op.Level
+	}
+	return s.Default
+}
+
+// genFailHopCase: a sequence in which one operation that needs at least one hop sees its hop take
+// effect on the device while the reaction arrives only after the operation timeout; afterwards 2-4
+// more operations, SendCommand(s) first.
+func genFailHopCase(r *rand.Rand) Sess {
+	n := 2 + r.Intn(5)
+	shape := []string{"random", "random", "chain", "star", "caterpillar"}[r.Intn(5)]
+	variant := []string{"plain", "auth", "overlap", "auth+overlap", "plain"}[r.Intn(5)]
+	s := newSess(r, "failhop", variant, randomTree(r, n, shape), r.Intn(4) != 0)
+	s.Shape = shape
+	cur := s.Start
+	move := func(op Op) {
+		s.Ops = append(s.Ops, op)
+		if t := s.targetOf(op); t >= 0 {
+			cur = t
+		}
+	}
+	for k := r.Intn(3); k > 0; k-- {
+		move(s.opTowards(r, r.Intn(n)))
+	}
+	if r.Intn(10) < 7 {
+		// the device (and the cached level) at the default desired level before the failing call
+		move(Op{Kind: []string{"command", "commands"}[r.Intn(2)], Level: -1, Lines: s.pickLines(r, 1)})
+	}
+	t := r.Intn(n - 1)
+	if t >= cur {
+		t++
+	}
+	hop := 0
+	if r.Intn(4) == 0 {
+		hop = r.Intn(n)
+	}
+	s.Fail = &FailSpec{At: len(s.Ops), Hop: hop, TimeoutMs: 400}
+	fop := s.opTowards(r, t)
+	s.Ops = append(s.Ops, fop)
+	// afterwards: SendCommand(s) first, then 1-3 more
+	s.Ops = append(s.Ops, Op{Kind: []string{"command", "commands"}[r.Intn(2)], Level: -1, Lines: s.pickLines(r, 1+r.Intn(2))})
+	for k := 1 + r.Intn(3); k > 0; k-- {
+		if r.Intn(3) == 0 {
+			s.Ops = append(s.Ops, Op{Kind: "command", Level: -1, Lines: s.pickLines(r, 1)})
+		} else {
+			s.Ops = append(s.Ops, s.opTowards(r, r.Intn(n)))
+		}
+	}
+	// keep the slowest transports out: the failing call runs with a short operation timeout
+	if s.Seg.Mode == "fixed" && s.Seg.Size < 3 {
+		s.Seg.Size = 3
+	}
+	if s.ReadDelay > 50 {
+		s.ReadDelay = 50
+	}
+	return s
+}
+
 func gen(tier string, seed int64) []mon.Case {
 	var cs []mon.Case
 	maxN := 4
@@ -784,6 +874,13 @@ func gen(tier string, seed int64) []mon.Case {
 	}
 	for i := 0; i < nSeq; i++ {
 		cs = append(cs, mon.MkCase(fmt.Sprintf("c04/seq-%05d", i), genSeqCase(rng())))
+	}
+	nFail := 40
+	if tier == "thorough" {
+		nFail = 600
+	}
+	for i := 0; i < nFail; i++ {
+		cs = append(cs, mon.MkCase(fmt.Sprintf("c04/failhop-%04d", i), genFailHopCase(rng())))
 	}
 	return cs
 }
